@@ -51,6 +51,13 @@ def run (ctx):
     for c in calls_in(f.node):
       if call_name(c) in ('discard', 'remove') and norm(c.func.value) in tgt: drops.append(q.enclosing_stmt_node(g, c))
     port_add = g.nodes_with_call(lambda c: call_name(c) == 'add' and norm(c.func.value) in tgt)
+    # a filtered copy built element by element: `for x in self._ports: if x.port_no != p.port_no: new.add(x)` ... `self._ports = new`
+    copies = [n_ for n_ in port_add if any(norm(c_.func.value) != 'self._ports' for c_ in q.node_calls(n_) if call_name(c_) == 'add') and any('port_no !=' in f_ for f_ in q.fact_strs(g, n_))
+              and any(isinstance(st_, ast.For) and norm(st_.iter) == 'self._ports' and n_ in g.loop_body_nodes(h_) for st_, h_, a_ in g.loop_nodes)]
+    if copies:
+      port_add = [n_ for n_ in port_add if n_ not in copies]
+      for t, v, st, k in q.stores_in(f.node):
+        if norm(t) == 'self._ports' and isinstance(v, ast.Name) and v.id in tgt: drops.append(q.enclosing_stmt_node(g, st))
     return g, p, mask_add, mask_dis, drops, port_add
   g, p, madd, mdis, drops, padd = effects(fg)
   iv = g.interval(lambda n: n in madd)
